@@ -27,6 +27,11 @@ def oklab_of_linsrgb(r, g, b):
     return (0.2104542553 * l_ + 0.7936177850 * m_ - 0.0040720468 * s_,
             1.9779984951 * l_ - 2.4285922050 * m_ + 0.4505937099 * s_,
             0.0259040371 * l_ + 0.7827717662 * m_ - 0.8086757660 * s_)
+# the CIE definitions relative to other white points (binaries convstd64 / convstd32)
+STD_EDGES = [("xyz50", "lab50"), ("lab50", "xyz50"), ("xyz50", "luv50"), ("luv50", "xyz50"), ("lab50", "lch50"), ("lch50", "lab50"),
+             ("xyzdci", "labdci"), ("labdci", "xyzdci")]
+STD_RANGES = {"xyz50": [(0, 0.96422), (0, 1), (0, 0.82521)], "lab50": NODES["lab"], "lch50": NODES["lch"], "luv50": NODES["luv"],
+              "xyzdci": [(0, 0.89459), (0, 1), (0, 0.95442)], "labdci": NODES["lab"]}
 WHITE = (0.95047, 1.0, 1.08883)
 LAB_EPS = 216.0 / 24389.0
 
@@ -108,8 +113,32 @@ def gen(ctx, path, path_ok):
     return c.close(), cok.close()
 
 
+def gen_std(ctx, path):
+    rnd = random.Random(ctx.seed + 5)
+    c = Cmds(path)
+    nr, nl = (30, 20) if ctx.quick else (400, 150)
+    for (a, b) in STD_EDGES:
+        axes = [[0.0, 77.0, 180.0, 301.5] if r is None else in_lattice(*r) for r in STD_RANGES[a]]
+        lat = list(itertools.product(*axes))
+        pts = [tuple(rnd.uniform(0, 360) if r is None else rnd.uniform(*r) for r in STD_RANGES[a]) for _ in range(nr)]
+        pts += rnd.sample(lat, min(nl, len(lat)))
+        if a.startswith("xyz"):      # both sides of the join of f(t), per channel, relative to this white
+            w = [r[1] for r in STD_RANGES[a]]
+            for k in range(3):
+                for t in straddle(LAB_EPS):
+                    p = [0.3 * w[0], 0.3, 0.3 * w[2]]
+                    p[k] = t * w[k]
+                    pts.append(tuple(p))
+            pts += [tuple(w), tuple(LAB_EPS * x for x in w), (1e-6, 1e-6, 1e-6)]
+        else:
+            pts += [(L, 0.0, 0.0) for L in straddle(8.0, 1e-7)] + [(L, 10.0, -10.0 if "lch" not in a else 200.0) for L in (7.9, 8.1, 50.0)]
+        for p in pts:
+            c.add(**{"from": a, "in": p, "path": [b], "mode": "u"})
+    return c.close()
+
+
 def run(ctx):
-    bins = cargo_build(["conv64", "conv32"])
+    bins = cargo_build(["conv64", "conv32", "convstd64", "convstd32"])
     tlc_mc(ctx, "MC_ColourMath", tag="colourmath", workers=4, coverage=False)
     nh = 12 if ctx.quick else 72
     r = tlc_mc(ctx, "MC_OkColour", tag="okcolour", workers=6, coverage=False, constants={"NH": nh})
@@ -118,7 +147,10 @@ def run(ctx):
     cmds, cmds_ok = ctx.p("c02.cmds"), ctx.p("c02ok.cmds")
     n, nok = gen(ctx, cmds, cmds_ok)
     log("C02: %d commands, %d on the Okhsv / Okhsl edges" % (n, nok))
+    cmds_std = ctx.p("c02std.cmds")
+    nstd = gen_std(ctx, cmds_std)
     for (b, cf, tag, chunk) in [("conv64", cmds, "c02.conv64", max(120, n // 13 + 1)), ("conv32", cmds, "c02.conv32", max(120, n // 13 + 1)),
+                                ("convstd64", cmds_std, "c02std.conv64", max(60, nstd // 6 + 1)), ("convstd32", cmds_std, "c02std.conv32", max(60, nstd // 6 + 1)),
                                 ("conv64", cmds_ok, "c02ok.conv64", max(6, nok // 32 + 1)), ("conv32", cmds_ok, "c02ok.conv32", max(6, nok // 32 + 1))]:
         tp = ctx.p(tag + ".ndjson")
         run_bin(bins[b], ["--cmds", cf, "--out", tp])
@@ -145,7 +177,7 @@ def run(ctx):
                   explanation="MC_ColourMath: 17 self-checks of the reference (derived sRGB matrix hits the white point and inverts, f(t) "
                               "continuous at the join, known exact points accepted, perturbed points rejected). MC_OkColour: the transcribed Okhsv / Okhsl / "
                               "HSLuv procedures mean what they are for on a hue grid (s = v = 1 is the gamut cusp, s = 1 the gamut surface, toe "
-                              "inverse, a 2 % perturbation fails). 40 directed edges x lattice, "
+                              "inverse, a 2 % perturbation fails). 48 directed edges x lattice, "
                               "threshold-straddling and random inputs x f32/f64 are judged by TLC with the relations of ColourMath.tla in "
                               "104-bit fixed point.",
                   trusted=["reference constants and formulas written in spec/ColourMath.tla with their citations",
